@@ -4,7 +4,8 @@ import re
 import logging
 
 from .util import (Source, print_dump, get_marked_atribute, split_pkg,
-                   get_marked_name, get_marked_import, get_all_usages, join_pkg)
+                   get_marked_name, get_marked_import, get_all_usages, join_pkg,
+                   marked, unmark)
 from .evaluator import EvalCtx
 from .nast import extract_scope
 
@@ -64,7 +65,9 @@ def assist(project, source, position, filename=None, debug=False):
         if name:
             names = name.flow.names_at(position)
 
-    return prefix, sorted(names)
+    # an attribute being assigned under the cursor ('self.ba|r = 1') carries
+    # the cursor marker in the analysed text: propose it under its real name
+    return prefix, sorted(set(unmark(n) if marked(n) else n for n in names))
 
 
 def _loc(location, filename):
